@@ -116,6 +116,7 @@ func init() {
 				o.count("ctor:evaluate-ranking")
 			default: // whole responses, all methods, bias sequences
 				q := genRequest(r, ReqOpts{MaxBiases: 3})
+				blankCurrent := ""
 				if r.chance(0.25) {
 					// the case that needs three things at once: a heuristic with a current choice OUTSIDE choseToMake
 					// and a bias that makes the listener rebuild the method parameters (criteria removed / added)
@@ -129,6 +130,18 @@ func init() {
 							if !heurContains(q.Problem.Chosen, a.Id) {
 								q.Body["methodParameters"].(J)["currentChoice"] = a.Id
 							}
+						}
+						if r.chance(0.15) {
+							// an id is free text: one made of white space only is still an id ("a current choice is given")
+							cur := q.Body["methodParameters"].(J)["currentChoice"].(string)
+							blank := []string{" ", "\t", "  "}[r.Intn(3)]
+							for _, a := range q.Body["knownAlternatives"].([]interface{}) {
+								if a.(J)["id"] == cur {
+									a.(J)["id"] = blank
+								}
+							}
+							q.Body["methodParameters"].(J)["currentChoice"] = blank
+							blankCurrent = blank
 						}
 						name := []string{"criteriaOmission", "criteriaOmission", "criteriaConcealment", "criteriaMixing"}[r.Intn(4)]
 						pr := biasPropsJSON(r, name, q.Problem)
@@ -156,6 +169,17 @@ func init() {
 					o.count("e2e-current-choice")
 				}
 				expected = uniq(expected)
+				if blankCurrent != "" {
+					// ids with white space do not travel through the line protocol: the core clause decided on the Go side
+					got := []string{}
+					for _, e := range choice.Result {
+						got = append(got, e.Alternative.Id)
+					}
+					mb := Meta{Case: c, Stage: "response-ids", Input: map[string]interface{}{"request": q.Body}, Key: string(q.JSON()), GoOut: got}
+					o.Oracle(mb, sameSet(got, expected), "the result does not hold exactly one entry per alternative to choose from (plus the current choice)")
+					o.count("e2e-blank-current-choice")
+					continue
+				}
 				m := Meta{Case: c, Stage: "response", Input: map[string]interface{}{"request": q.Body}, Key: string(q.JSON()), Trivial: len(expected) < 2, GoOut: rankingJSON(&choice.Result)}
 				o.Spec(m, L(A("check-c01"), Strs(expected), linksSX(choice.Result)))
 			}
